@@ -81,11 +81,14 @@ static int from_lib2(void *ra, void *m)
 /* ------------------------------------------------------------------ PARK mode */
 static volatile int park_k;            /* event number at which the designated thread parks (0 = never) */
 static volatile int park_events;       /* events seen from the designated thread */
-static volatile int park_state;        /* 0 idle, 1 parked, 2 released */
+static volatile int park_state;        /* 0 idle, 1 parked, 2 released, 3 running on until it holds no lock, then parked again */
 static volatile int park_word;         /* futex word the parked thread sleeps on */
 static volatile int parked_word;       /* futex word the waiter (main) sleeps on */
 static volatile pthread_t park_thread;
 static volatile int park_thread_set;
+/* auxiliary threads: each parks at its own first event >= aux_k at which it holds none of the library's locks */
+static volatile int aux_k, aux_parked, aux_word;
+static __thread int is_aux, aux_events, aux_done, lock_depth;
 static volatile int deadlock_flag;
 static volatile int generic_park = 1;     /* libc calls count as park events too */
 static void (*deadlock_cb)(const char *);
@@ -98,7 +101,14 @@ VIS void sched_park_setup(int k) { park_k = k; park_events = 0; park_state = 0; 
 VIS void sched_park_thread_is_me(void) { park_thread = pthread_self(); park_thread_set = 1; }
 VIS int sched_park_events(void) { return park_events; }
 VIS int sched_is_parked(void) { return park_state == 1; }
-VIS void sched_release(void) { if (park_state == 1) { park_state = 2; park_word = 1; fwake(&park_word); } }
+VIS void sched_release(void)
+{
+    if (park_state == 1 || park_state == 3) { park_state = 2; park_word = 1; fwake(&park_word); }
+    if (aux_word == 0) { aux_word = 1; fwake(&aux_word); }
+}
+VIS void sched_aux_setup(int k) { aux_k = k; aux_parked = 0; aux_word = k ? 0 : 1; }
+VIS void sched_aux_thread_is_me(void) { is_aux = 1; aux_events = 0; aux_done = 0; }
+VIS int sched_aux_parked(void) { return aux_parked; }
 /* wait until the designated thread is parked or *done flag is set; returns 1 if parked */
 VIS int sched_wait_parked(volatile int *done, int timeout_ms)
 {
@@ -112,8 +122,34 @@ VIS int sched_wait_parked(volatile int *done, int timeout_ms)
 
 VIS void sched_generic_events(int on) { generic_park = on; }
 
+/* a fork handler of the library needs the lock the parked thread holds: the thread runs on until it has given up all of the
+ * library's locks and is parked again there, so that it is still stopped inside its call when the fork really happens */
+static void release_until_unlocked(void)
+{
+    if (park_state == 1) { park_state = 3; park_word = 1; fwake(&park_word); }
+}
+
 static void park_event(void)
 {
+    if (park_state == 3 && park_thread_set && pthread_equal(pthread_self(), park_thread) && !in_child) {
+        if (lock_depth == 0) {
+            park_word = 0;
+            park_state = 1;
+            parked_word = 1; fwake(&parked_word);
+            while (park_state == 1) fwait(&park_word, 0);
+        }
+        return;
+    }
+    if (is_aux) {
+        if (in_child || !aux_k || aux_done) return;
+        if (++aux_events >= aux_k && lock_depth == 0 && aux_word == 0) {
+            aux_done = 1;
+            __sync_fetch_and_add(&aux_parked, 1);
+            while (aux_word == 0) fwait(&aux_word, 0);
+            __sync_fetch_and_sub(&aux_parked, 1);
+        }
+        return;
+    }
     if (!park_thread_set || !pthread_equal(pthread_self(), park_thread) || in_child) return;
     int n = ++park_events;
     if (park_k && n == park_k && park_state == 0) {
@@ -127,6 +163,7 @@ static void child_after_fork(void)
 {
     in_child = 1;
     park_state = 0; park_k = 0; park_thread_set = 0;
+    aux_k = 0; aux_parked = 0; aux_word = 1;
 }
 
 static void report_deadlock(const char *what)
@@ -290,14 +327,15 @@ VIS int pthread_mutex_lock(pthread_mutex_t *m)
         return r;
     }
     if (mode == MODE_PARK) {
-        if (park_state == 1 && park_thread_set && !pthread_equal(pthread_self(), park_thread)) {
+        if (park_state == 1 && park_thread_set && !pthread_equal(pthread_self(), park_thread) && !is_aux) {
             int r = real_trylock(m);
             if (r != EBUSY) { return r; }
-            /* another thread (e.g. a fork handler) needs the lock the parked thread holds: let it go on */
-            sched_release();
+            /* another thread (e.g. a fork handler) needs the lock the parked thread holds: let it go on until it gives the lock up */
+            release_until_unlocked();
             return real_lock(m);
         }
         int r = real_lock(m);
+        if (r == 0) lock_depth++;
         park_event();
         return r;
     }
@@ -310,7 +348,7 @@ VIS int pthread_mutex_unlock(pthread_mutex_t *m)
     init_real();
     void *ra = __builtin_return_address(0);
     if (mode == MODE_OFF || !from_lib2(ra, m) || in_child) return real_unlock(m);
-    if (mode == MODE_PARK) { int r = real_unlock(m); park_event(); return r; }
+    if (mode == MODE_PARK) { int r = real_unlock(m); if (r == 0 && lock_depth > 0) lock_depth--; park_event(); return r; }
     if (my_index < 0) return real_unlock(m);
     return coop_unlock(m);
 }
